@@ -245,6 +245,31 @@ async fn eval_config(
         tally.transitions += 1;
     }
     tally.configs += 1;
+    // the n-th publish of a policy id mints version n, and that is the version
+    // a Principal is told it is governed by
+    for (i, minted) in cfg.minted.iter().enumerate() {
+        if *minted != Some(i as u64 + 1) {
+            tally.failures.push(Failure {
+                kind: "policy-version", family: "minted".into(), config: config.to_vec(), who: 0, item: format!("publish #{}", i + 1),
+                detail: json!({"publish_policy_answered": minted.map(|v| json!(v)).unwrap_or(json!("an error")), "expected_version": i + 1}),
+                alts: vec![],
+            });
+            break;
+        }
+    }
+    if !cfg.minted.is_empty() && only.is_none_or(|(_, l)| l == "describe-access") {
+        let session = nexus.session(AuthContext::principal(&cfg.principal[2]).with_auth_strength(auth_strength::STRONG));
+        let r = vgov::fixture::exec(&session, "DESCRIBE ACCESS", None).await;
+        let reported = r.first_result().and_then(|v| v["policy"]["version"].as_u64());
+        tally.battery_answers += 1;
+        if reported != Some(cfg.minted.len() as u64) {
+            tally.failures.push(Failure {
+                kind: "policy-version", family: "reported".into(), config: config.to_vec(), who: 2, item: "describe-access".into(),
+                detail: json!({"DESCRIBE ACCESS policy.version": reported, "versions_published": cfg.minted.len()}),
+                alts: vec![],
+            });
+        }
+    }
     let resources = matrix_resources(built);
     // 1 = p1, 2 = p2, 3 = co (the second owner: decision matrix only, an owner's
     // answers are the unfiltered ones)
@@ -571,6 +596,22 @@ fn main() {
         }
     });
 
+    // ---- fixed scenario: a long version chain of one policy id ---------------------
+    // [GAll, PolChain(1) .. PolChain(k)] for k = 1..=12: after every publish the
+    // minted version, the decision matrix and the whole battery (the decisive
+    // statement flips at versions 10, 11 and 12; AuthModel: the greatest version).
+    let mut totals = Tally::default();
+    util::block_on(async {
+        let nexus = fresh_nexus("policy_chain").await;
+        let built = pop::build(&nexus, &[true; N], &[false; N]).await;
+        for k in 1..=12u8 {
+            let mut config = vec![Action::GAll];
+            config.extend((1..=k).map(Action::PolChain));
+            eval_config(&nexus, &built, &format!("chain{k}"), &config, &items, &clones, &mut totals, None, [true; 3]).await;
+        }
+    });
+    let chain_configs = totals.configs;
+
     // ---- enumeration ------------------------------------------------------------
     let quick = run.tier == vcore::Tier::Quick;
     let alphabet: &[Action] = if quick { QUICK_ALPHABET } else { FULL_ALPHABET };
@@ -580,7 +621,6 @@ fn main() {
     let full_depth = run.tier.pick(2, 3);
     let mut seen_states: BTreeSet<u64> = BTreeSet::new();
     let mut seen_views: BTreeSet<u64> = BTreeSet::new();
-    let mut totals = Tally::default();
     let mut completed_depth = 0;
     let mut pruned_noop = 0u64;
     let mut pruned_state = 0u64;
@@ -681,6 +721,7 @@ fn main() {
     run.add("batteries_skipped_same_resolved_authority", totals.battery_skipped_same_authority);
     run.add("gate_unspecified_skipped", totals.gate_unspecified);
     run.set("completed_depth", json!(completed_depth));
+    run.add("policy_chain_configurations", chain_configs);
     run.set("alphabet", json!(alphabet.iter().map(|a| a.name()).collect::<Vec<_>>()));
     run.set("battery_items", json!(items.len()));
     for h in &totals.nontrivial {
@@ -689,6 +730,7 @@ fn main() {
     for s in totals.samples.drain(..) {
         run.sample(s);
     }
+    run.rule("fixed scenario: one policy id published 12 times ([GAll, PolChain(1..k)], k = 1..12), after every publish: minted version = k, DESCRIBE ACCESS names version k, decision matrix and battery against AuthModel's greatest-version policy");
     run.rule(&format!(
         "every sequence of <= {full_depth} control-plane actions over the alphabet, plus for depth <= {max_depth} the first sequence reaching each further canonical AuthModel state (no-op actions pruned); per configuration: p1 (standard), p2 (strong authentication) and the co-owner (matrix only) x decision matrix ({} permissions x {} resources) x {} battery commands (answered once per distinct resolved authority; a Principal no record was ever about answers 7 commands of different families); distinct non-trivial = (canonical state, Principal) whose readable set is a proper non-empty subset of the population or carries a field mask",
         MATRIX_PERMS.len(), N + 6, items.len()
